@@ -434,6 +434,20 @@ class C03(Property):
             circ = rng.random() < 0.4
             ext = rng.choice([A("x"), ["cds", False, [A("x"), A("y")]], ["cds", False, [["conj", [A("x"), A("y")]]]]])
             rules = [{"name": "r0", "cutoff": c, "nbhd": nb, "cond": A("a"), "sup": [], "ext": ext}]
+            if circ and rng.random() < 0.7:
+                # put the anchor next to the start of the record: the walk backwards goes over the origin
+                length += rng.choice([2 * c + 2, 5 * c])          # something beyond reach after the last gene
+                genes.append(gene(end + c + 1 + rng.choice([0, c]), rng.choice(["b", "x", "y"])))
+                shift = lo - rng.choice([0, 1, gl, c - 1])
+                moved = []
+                for g in genes:
+                    a, b, st = g["loc"]["parts"][0]
+                    a2 = (a - shift) % length
+                    if a2 + (b - a) <= length:
+                        moved.append(dict(g, loc=simple(a2, a2 + (b - a), st)))
+                    elif rng.random() < 0.5:
+                        moved.append(dict(g, loc=origin_gene(rng, length, length - a2, a2 + (b - a) - length, st)))
+                genes = moved
         seen, out = set(), []
         for g in genes:
             if g is None:
